@@ -540,3 +540,37 @@ def enumerated_elements_act_as_their_words(tier, rng, rep):
             rep.case(key=(t, aname), nontrivial=True, sample=inp if (t, aname) == (0, "free") else None)
             if len(rep.failures) >= 3:
                 return
+
+
+@bounded(P, "maps_acting_on_maps_of_another_class", functions=[PR + "Transformation.__matmul__", PR + "Transformation.apply", HY + "Isometry.__init__"],
+         note="A @ X when X is itself a transformation of ANOTHER class than A (a hyperbolic isometry and a plain projective transformation, CP1 / projective): the result has the type and "
+              "composite shape of X, equals A.apply(X), and the action laws hold with these operands")
+def maps_acting_on_maps_of_another_class(tier, rng, rep):
+    N = 40 if tier == 'thorough' else 10
+    rep.rule = "A in {Isometry, Transformation}, X in {Transformation, Isometry} of the other class; single and composite (3,); matrices of O(2,1) (so that both classes accept them)"
+    rep.bound = f"{N} rounds x 2 class pairs x 2 shapes"
+    def iso_mat():
+        C = h.Point((lambda w: w / np.linalg.norm(w) * rng.uniform(0.1, 0.7))(rng.normal(size=2)), model="klein").origin_to()
+        return np.asarray((C @ h.Isometry.standard_rotation(rng.uniform(0, 6))).proj_data, dtype=float)
+    for t in range(N):
+        for shape in ((), (3,)):
+            MA = iso_mat()
+            MX = np.array([iso_mat() for _ in range(int(np.prod(shape)) or 1)]).reshape(shape + (3, 3))
+            for ca, cx in ((h.Isometry, pr.Transformation), (pr.Transformation, h.Isometry)):
+                inp = {"class_of_A": ca.__name__, "class_of_X": cx.__name__, "shape": list(shape), "A": MA.tolist(), "X": MX.tolist()}
+
+                def body():
+                    A_, X_ = ca(MA.copy()), cx(MX.copy())
+                    Y = A_ @ X_
+                    Z = A_.apply(X_)
+                    if type(Y) is not type(X_) or type(Z) is not type(X_):
+                        rep.fail("result_has_the_type_of_X", f"{ca.__name__} @ {cx.__name__} is a {type(Y).__name__} (apply gives {type(Z).__name__})", inp); return
+                    if Y.shape != X_.shape or not np.all(np.abs(np.asarray(Y.proj_data) - np.asarray(Z.proj_data)) <= 1e-12):
+                        rep.fail("matmul_is_apply", f"shapes {Y.shape} / {X_.shape}", inp); return
+                    back = A_.inv() @ Y
+                    if type(back) is not type(X_) or not np.all(np.abs(np.asarray(back.proj_data) - MX) <= 1e-9):
+                        rep.fail("inverse_law", f"A.inv() @ (A @ X) is a {type(back).__name__}", inp); return
+                rep.attempt("apply_runs", inp, body)
+                rep.case(key=(t, shape, ca.__name__), nontrivial=True, sample=inp if (t, shape) == (0, ()) and ca is h.Isometry else None)
+                if len(rep.failures) >= 3:
+                    return
